@@ -220,7 +220,7 @@ def check(run):
     tag = "path-%d" % os.getpid()
     for n in (39, 40, 41):
         cases.append((chain_case(n), "w", ["l0", "l1", "l%d" % (n - 1), "f.txt"]))
-    ntrees = 45 if run.tier == "quick" else 1500
+    ntrees = 45 if run.tier == "quick" else 500
     for i in range(ntrees):
         name = "%s-%d" % (tag, len(cases))
         spec = gen_tree(rng, name)
